@@ -136,4 +136,34 @@ Proof.
   unfold id_is_v4. rewrite Hid. apply bytes_eqb_refl.
 Qed.
 
+(* C09: set_seq is refused for size exactly when the record with the requested number and the new signature
+   exceeds 300 bytes (no condition on signature lengths: set_seq has a single size check, after signing) *)
+Lemma set_seq_outcome r n k sg s :
+  check_keyed_by c kt (with_key (content r) k) k = Ok tt ->
+  sm_get k_id (with_key (content r) k) = Some (enc_string v4) ->
+  sg (signed_payload_of n (with_key (content r) k)) = Some s ->
+  step c kt r (OSetSeq n) k sg =
+  if MAX_ENR_SIZE <? size (cand n (node_id_of (sk_pub k)) (with_key (content r) k) s)
+  then (Err EExceedsMaxSize, r) else (Ok RUnit, cand n (node_id_of (sk_pub k)) (with_key (content r) k) s).
+Proof.
+  intros Hk Hid Hs.
+  pose proof (WellFormedLemmas.get_id_is_v4 (cand n (nid r) (with_key (content r) k) (sig r)) Hid) as Hid4.
+  unfold step. rewrite apply_op_nf. cbn [checked_inserts unchecked_op inserts check_list bind commit].
+  unfold set_seq. rewrite Hk. cbn [bind]. unfold compute_signature, signed_payload. cbn [seq content].
+  unfold cand in Hid4. rewrite Hid4, Hs. cbn [bind]. unfold cand.
+  destruct (MAX_ENR_SIZE <? size {| seq := n; nid := node_id_of (sk_pub k); content := with_key (content r) k; sig := s |});
+    reflexivity.
+Qed.
+
+Theorem set_seq_refused_iff r n k sg s :
+  check_keyed_by c kt (with_key (content r) k) k = Ok tt ->
+  sm_get k_id (with_key (content r) k) = Some (enc_string v4) ->
+  sg (signed_payload_of n (with_key (content r) k)) = Some s ->
+  (fst (step c kt r (OSetSeq n) k sg) = Err EExceedsMaxSize <->
+   MAX_ENR_SIZE < size (cand n (node_id_of (sk_pub k)) (with_key (content r) k) s)).
+Proof.
+  intros Hk Hid Hs. rewrite (set_seq_outcome r n k sg s Hk Hid Hs).
+  destruct (MAX_ENR_SIZE <? _) eqn:E; cbn [fst]; split; intros H; try discriminate; try reflexivity; lia.
+Qed.
+
 End WithCrypto.
